@@ -613,6 +613,10 @@ theorem step_grow {s s' : WState} {op : Op} (hi : Inv s) (hobj : s.opts.objStm =
   | closeStream => exact streamClose_grow hi h
   | writeCompressed items raw => exact writeCompressed_grow hi hobj h
   | close cat info tr raw => exact close_grow hi hobj h
+  | openStreamFail num gen =>
+    obtain ⟨_, _, n, _, _, rfl⟩ := openStreamFail_fields h
+    exact grow_append rfl (Mono.of_eq rfl) [] (by simp) (fun st p h1 h2 => .inl ⟨st, h1, h2⟩) rfl
+  | rejected op => rw [rejected_fields h]; exact Grow.refl s
 
 theorem run_grow (ops : List Op) : ∀ {s s' : WState} {i : Nat}, Inv s → s.opts.objStm = false →
     run s ops i = .ok s' → Grow s s' := by
